@@ -90,8 +90,19 @@ impl TrainDisp {
                     {
                         break;
                     }
+                    // A fake node that is stepped over is still passed: give it its time, as
+                    // the main loop does, so that the next advance does not start from an
+                    // infinite `time_pass`
+                    let est_time_free = &self.est_times[disp_node_free.est_idx.idx()];
+                    self.disp_path[self.disp_node_idx_free.idx()].time_pass = self.time_update_next;
                     self.disp_node_idx_free =
                         (self.disp_node_idx_free.idx() + 1).try_from_idx().unwrap();
+                    if self.disp_node_idx_free.idx() < self.disp_path.len()
+                        && est_time_free.idx_next
+                            == self.disp_path[self.disp_node_idx_free.idx()].est_idx
+                    {
+                        self.time_update_next += est_time_free.time_to_next;
+                    }
                 }
                 break;
             }
